@@ -52,8 +52,11 @@ def split_target(target):
     return form, rest, b""
 
 
-def expected(method, target, version, header_lines, script_name="", header_map="drop", trusted_script_header=False):
-    """header_lines: list of (name bytes, value bytes already OWS-trimmed) in wire order."""
+def expected(method, target, version, header_lines, script_name="", header_map="drop", trusted_script_header=False,
+             forwarder_names=()):
+    """header_lines: list of (name bytes, value bytes already OWS-trimmed) in wire order.
+    forwarder_names: upper-case names (str) that are mapped although they contain an underscore (the configured forwarder
+    headers when the peer is a trusted front-end)."""
     env = {}
     nj = set()
     env["REQUEST_METHOD"] = method.decode("latin-1")
@@ -77,7 +80,7 @@ def expected(method, target, version, header_lines, script_name="", header_map="
     for name, value in header_lines:
         up = name.decode("latin-1").upper()
         val = value.decode("latin-1")
-        if b"_" in name and header_map == "drop":
+        if b"_" in name and header_map == "drop" and up not in forwarder_names:
             continue
         if up == "CONTENT-TYPE":
             ct.append(val)
